@@ -9,7 +9,8 @@ from pathlib import Path
 V = Path(__file__).resolve().parent.parent
 pid, src, k = sys.argv[1], Path(sys.argv[2]), sys.argv[3]
 checks = sys.argv[4:] or [pid]
-wt = Path(f"/tmp/sw/{pid}-{k}")
+tag = os.environ.get("SEED_TAG", "")
+wt = Path(f"/tmp/sw/{pid}-{tag}{k}")
 subprocess.run(["git", "-C", "/repo", "worktree", "remove", "--force", str(wt)], capture_output=True)
 wt.parent.mkdir(exist_ok=True)
 def run(cmd, **kw):
@@ -52,7 +53,7 @@ try:
     res["caught"] = any(v["exit"] != 0 for v in res["checks"].values())
 finally:
     subprocess.run(["git", "-C", "/repo", "worktree", "remove", "--force", str(wt)], capture_output=True)
-dst = V / "seeded" / pid / str(k)
+dst = V / "seeded" / pid / (tag + str(k))
 dst.mkdir(parents=True, exist_ok=True)
 shutil.copy(src / f"patch{k}.diff", dst / "patch.diff")
 shutil.copy(src / f"demo{k}.py", dst / "demo.py")
